@@ -113,6 +113,19 @@ CLAIMED['C15'] = dict(
     technique='TLA+ heap model with adversarial mutation + TLC; spec->code replay of histories',
     design_ref='3/C15')
 
+CLAIMED['C04'] = dict(
+    text=('NnxUpdateCtx.tla extends the heap of NnxGraph.tla with functions written as path-addressed edit scripts (Variable update, static '
+          'attribute, new sub-object / Variable, attribute deletion, re-binding = aliasing or cycle, optional returned object looked up '
+          'before the edits and possibly wrapped in a new object), 1-2 arguments that may alias, a transform kind and a history of repeated '
+          'calls; the reference semantics is the eager application of the script to the caller\'s heap (loops: trip-count times; cond / '
+          'switch / while / fori: a script that changes structure is the error disjunct). Behaviours from tlc -simulate (plus a scenario with '
+          'dict containers of Variables built in non-sorted insertion order) are replayed under the real nnx.jit / remat / cond / switch / '
+          'while_loop / fori_loop / cached_partial with the same transformed function object across calls, and eagerly on a clone (second '
+          'oracle); canonical forms, identity of every pre-existing object (id()), the returned object and the returned value are compared.'),
+    technique='TLA+ reference-semantics model + TLC (-simulate); spec->code replay with an eager twin as second oracle',
+    design_ref='3/C04',
+    note=TRUST + ' The 4-step split/merge protocol is not modelled implementation-shaped; the specification states the reference semantics.')
+
 NOT_YET = 'check not built yet in this round (planned, see DESIGN.md section 3); not claimed until its specification is bound to the code'
 ALL = ['C%02d' % i for i in range(1, 21)]
 
